@@ -2468,7 +2468,28 @@ class PathResult:
         self.detail = detail
 
 
-def explore(fn, max_paths=200000, deadline=None, timeout_ms=20000, max_decisions=20000, prefixes=None, on_path=None):
+class _Alarm:
+    """wall-clock limit for one path (a mutant may loop forever without taking a decision)"""
+
+    def __init__(self, seconds):
+        self.seconds = seconds
+
+    def _fire(self, signum, frame):
+        raise Budget("path wall-clock budget (%ss)" % self.seconds)
+
+    def __enter__(self):
+        import signal
+        self.old = signal.signal(signal.SIGALRM, self._fire)
+        signal.setitimer(signal.ITIMER_REAL, self.seconds)
+
+    def __exit__(self, *a):
+        import signal
+        signal.setitimer(signal.ITIMER_REAL, 0)
+        signal.signal(signal.SIGALRM, self.old)
+        return False
+
+
+def explore(fn, max_paths=200000, deadline=None, timeout_ms=20000, max_decisions=20000, prefixes=None, on_path=None, path_seconds=90):
     """Run fn(ctx) once per feasible path (DFS).  Yields PathResult objects via on_path
     or collects them.  fn may return any value (stored in PathResult.value)."""
     work = list(prefixes) if prefixes else [()]
@@ -2487,7 +2508,8 @@ def explore(fn, max_paths=200000, deadline=None, timeout_ms=20000, max_decisions
         Ctx.cur = ctx
         try:
             try:
-                v = fn(ctx)
+                with _Alarm(path_seconds):
+                    v = fn(ctx)
                 pr = PathResult('ok', v)
             except PathAbort:
                 pr = PathResult('infeasible')
